@@ -125,6 +125,8 @@ func c12pkg() *tcpsim.C12Pkg {
 	}
 }
 
+func init() { tcpsim.PageBytes = tcpassembly.VerifPageBytes }
+
 var sims = map[string]sim.SimFunc{
 	"c12t": func(c *sim.Ctx) { tcpsim.RunC12(c, c12pkg()) },
 	"c10": func(c *sim.Ctx) {
